@@ -1,38 +1,50 @@
 #!/usr/bin/env python3
-"""Applies every seeded change to /repo in turn, runs every check's quick tier (theorem build skipped: the
-Coq side does not depend on /repo), undoes the change, and records which checks report a violation in
-seeded/<id>/meta.json and seeded/MATRIX.md.  Run only while nothing else uses /repo."""
-import json, os, subprocess, sys, re
+"""For every seeded change: a scratch worktree of /repo (under /tmp, removed afterwards) with the change applied,
+every check's quick tier run against it (VERIF_REPO; theorem build skipped: the Coq side does not depend on the
+Rust tree), and the checks that report a violation recorded in seeded/<id>/meta.json and seeded/MATRIX.md.
+/repo itself is never modified.  usage: mutation_matrix.py [-j N] [ids...]"""
+import json, os, subprocess, sys, concurrent.futures
 ROOT = "/verif"
 props = [json.loads(l)["id"] for l in open(os.path.join(ROOT, "properties.jsonl"))]
+args = sys.argv[1:]
+jobs = 3
+if args[:1] == ["-j"]:
+    jobs = int(args[1]); args = args[2:]
 ids = sorted(d for d in os.listdir(os.path.join(ROOT, "seeded")) if os.path.isdir(os.path.join(ROOT, "seeded", d)))
-only = sys.argv[1:]
-rows = []
-for mid in ids:
-    if only and mid not in only:
-        continue
+ids = [i for i in ids if not args or i in args]
+
+def one(mid):
     d = os.path.join(ROOT, "seeded", mid)
-    meta = json.load(open(os.path.join(d, "meta.json")))
-    r = subprocess.run(["git", "-C", "/repo", "apply", os.path.join(d, "patch.diff")])
-    if r.returncode != 0:
-        print(mid, "patch does not apply"); continue
+    wt = "/tmp/mx_" + mid
+    subprocess.run(["git", "-C", "/repo", "worktree", "remove", "--force", wt], capture_output=True)
+    subprocess.run(["git", "-C", "/repo", "worktree", "add", "--detach", wt, "HEAD"], capture_output=True)
     det = []
     try:
+        r = subprocess.run(["git", "-C", wt, "apply", os.path.join(d, "patch.diff")], capture_output=True, text=True)
+        if r.returncode != 0:
+            return mid, None, "patch does not apply: " + r.stderr[:200]
         for p in props:
-            env = dict(os.environ, VERIF_HARNESS_LIMIT="40")
+            env = dict(os.environ, VERIF_HARNESS_LIMIT="40", VERIF_REPO=wt)
             out = subprocess.run([os.path.join(ROOT, "check.py"), p, "--tier", "quick", "--no-coq"],
                                  capture_output=True, text=True, env=env, cwd=ROOT).stdout
             if "VIOLATION property=%s" % p in out:
                 det.append(p)
     finally:
-        subprocess.run(["git", "-C", "/repo", "checkout", "--", "."])
+        subprocess.run(["git", "-C", "/repo", "worktree", "remove", "--force", wt], capture_output=True)
+    meta = json.load(open(os.path.join(d, "meta.json")))
     meta["detected_by"] = det
     meta["detected_by_own_property_check"] = meta["breaks_property"] in det
     json.dump(meta, open(os.path.join(d, "meta.json"), "w"), indent=1)
-    rows.append((mid, meta["breaks_property"], det))
-    print(mid, meta["breaks_property"], det, flush=True)
-if not only:
-    with open(os.path.join(ROOT, "seeded", "MATRIX.md"), "w") as f:
-        f.write("# Seeded breaking changes and the checks that report them (quick tier)\n\n| change | breaks | reported by |\n|---|---|---|\n")
-        for mid, p, det in rows:
-            f.write("| %s | %s | %s |\n" % (mid, p, " ".join(det) or "NONE"))
+    return mid, meta["breaks_property"], det
+
+with concurrent.futures.ThreadPoolExecutor(max_workers=jobs) as ex:
+    for mid, p, det in ex.map(one, ids):
+        print(mid, p, det, flush=True)
+rows = []
+for mid in sorted(d for d in os.listdir(os.path.join(ROOT, "seeded")) if os.path.isdir(os.path.join(ROOT, "seeded", d))):
+    meta = json.load(open(os.path.join(ROOT, "seeded", mid, "meta.json")))
+    rows.append((mid, meta["breaks_property"], meta.get("detected_by", [])))
+with open(os.path.join(ROOT, "seeded", "MATRIX.md"), "w") as f:
+    f.write("# Seeded breaking changes and the checks that report them (quick tier)\n\n| change | breaks | reported by |\n|---|---|---|\n")
+    for mid, p, det in rows:
+        f.write("| %s | %s | %s |\n" % (mid, p, " ".join(det) or "NONE"))
